@@ -1,6 +1,7 @@
 import SSVerif.Props.C03
 import SSVerif.Props.C06
 import SSVerif.Props.C07
+import SSVerif.Props.C07Fe
 import SSVerif.Model.Search
 import SSVerif.Generated.HistConsts
 /-!
@@ -254,6 +255,33 @@ theorem C03_frames_match_front_end (s0 : St) (ops post : List Op) (tail : Bool) 
   rw [hcount] at hM
   obtain ⟨a1, _, _, _, a5, _, _⟩ := C03_frames_add_up win skip s0 ops post tail hwf hw hcmn hfe hstream hpost
   exact ⟨by rw [a1, hM], by rw [a5, hM]⟩
+
+/-- **C03: the frames searched are the frames of the audio supplied, no interface hypothesis.**  With c07's
+sample-level decoder model (`AcmodFe.runUttS`: c06's front end called inside `acmod_process_raw` /
+`acmod_end_utt` with the ring's real room), every partition `ops` of the audio into `decoder_process_*`
+calls is a call history `ops'` of the response-level model to which `C03_frames_add_up` applies, and the
+sum of its return values plus the frames searched inside `decoder_end_utt` is
+`frameCount size shift N` for the `N = samplesOf ops` samples supplied; `decoder_n_frames` is that plus the
+offset.  (`C03_frames_match_front_end` needed the link `hlink` as a hypothesis; here it is c07's theorem
+`C07_runUttS_eq_runUtt`.) -/
+theorem C03_frames_equal_frameCount (size shift : Nat) (s0 : St) (ops : List SSVerif.AcmodFe.OpS) (post : List Op)
+    (hs : 0 < shift) (hlt : shift < size) (hwf : WF0 s0) (hw : 3 * win + 2 ≤ livebuf)
+    (hcmn : s0.cmnFrames + SSVerif.FeBuf.frameCount size shift (SSVerif.AcmodFe.samplesOf ops) ≤ cmnWinHwm)
+    (hpost : ∀ op, op ∈ post → op.isProcess = false) :
+    ∃ (ops' : List Op) (tail : Bool),
+      (SSVerif.AcmodFe.runUttS ⟨size, shift, true⟩ true win skip s0 ops post).st = runUtt true win skip s0 ops' tail post ∧
+      (returns win skip (startUtt s0) ops').sum + endRet win skip (runOps true win skip (startUtt s0) ops') tail =
+        (SSVerif.FeBuf.frameCount size shift (SSVerif.AcmodFe.samplesOf ops) : Int) ∧
+      (∀ x ∈ returns win skip (startUtt s0) ops', 0 ≤ x) ∧
+      nFrames (SSVerif.AcmodFe.runUttS ⟨size, shift, true⟩ true win skip s0 ops post).st =
+        (SSVerif.FeBuf.frameCount size shift (SSVerif.AcmodFe.samplesOf ops) : Int) + nFramesOffset := by
+  obtain ⟨ops', tail, h1, h2, h3, h4, _⟩ :=
+    SSVerif.AcmodFe.C07_runUttS_eq_runUtt size shift win skip s0 ops post hs hlt hwf hw hcmn hpost
+  obtain ⟨n1, _, _, _⟩ := SSVerif.AcmodFe.C07_nextId_eq_frameCount size shift win skip s0 ops post hs hlt hwf hw hcmn hpost
+  obtain ⟨a1, _, _, _, a5, a6, _⟩ := C03_frames_add_up win skip s0 ops' post tail hwf hw h2 h3 h4 hpost
+  have hM : (runUtt true win skip s0 ops' tail post).nextId =
+      SSVerif.FeBuf.frameCount size shift (SSVerif.AcmodFe.samplesOf ops) := by rw [← h1]; exact n1
+  exact ⟨ops', tail, h1, by rw [a1, hM], a6, by rw [h1, a5, hM]⟩
 
 /-! ### the search module's frame counter, and the segmentation -/
 
